@@ -113,6 +113,9 @@ def prepare(selfcheck=False):
                 log(o[-3000:])
                 if "FAIL" in o:
                     raise RuntimeError("repository tests fail on the instrumented copy")
+            # the instrumented twin of the CLI (simulator inactive): used where a child process has to
+            # be killed at an exactly repeatable write
+            run([GO, "build", "-o", os.path.join(tmpdst, "updog-sim"), "./cmd/updog"], cwd=sc)
             os.makedirs(os.path.join(sc, "verifsim"), exist_ok=True)
             for f in glob.glob(os.path.join(VERIF, "harness", "*.go")):
                 shutil.copy(f, os.path.join(sc, "verifsim"))
@@ -147,6 +150,7 @@ def worker_env(bdir, args, outdir):
     e["VERIFSIM_ARGS"] = json.dumps(args)
     e["GORACE"] = "log_path=%s halt_on_error=0 atexit_sleep_ms=0" % args["racelog"]
     e["VERIF_UPDOG_BIN"] = os.path.join(bdir, "updog")
+    e["VERIF_UPDOG_SIM_BIN"] = os.path.join(bdir, "updog-sim")
     e["VERIF_SITES"] = os.path.join(bdir, "sites.json")
     e["TMPDIR"] = outdir
     e["GOMAXPROCS"] = os.environ.get("VERIF_GOMAXPROCS", "4")
@@ -156,11 +160,12 @@ def worker_env(bdir, args, outdir):
 def run_batch(bdir, prop, tier, seed, count, wallcap, outdir, nworkers):
     procs = {}
     t0 = time.time()
+    known_sigs = [k["sig"] for k in load_known() if k["property"] == prop]
 
     def launch(w, start):
         args = {"mode": "gen", "property": prop, "tier": tier, "base": seed, "start": start, "stride": nworkers,
                 "count": count, "worker": w, "outdir": outdir, "wallcap_s": max(1, int(wallcap - (time.time() - t0))),
-                "racelog": os.path.join(outdir, "race-%d" % w), "samples": 3 if w == 0 else 0}
+                "racelog": os.path.join(outdir, "race-%d" % w), "samples": 3 if w == 0 else 0, "known_sigs": known_sigs}
         lf = open(os.path.join(outdir, "worker-%d.log" % w), "ab")
         procs[w] = (subprocess.Popen(worker_cmd(bdir), env=worker_env(bdir, args, outdir), stdout=lf, stderr=subprocess.STDOUT, cwd=outdir), start, lf)
 
